@@ -1,19 +1,10 @@
 //! Unit `ellipse_contract`: contract on EllipseContains::{new, contains} (used by C05/C06/C18 row
-//! harnesses through stub_verified, so that a row search evaluates the 32-bit closed form of the
+//! harnesses through kani::stub with the contract written as a function, so that a row search evaluates the 32-bit closed form of the
 //! spec instead of the 64-bit saturating arithmetic of the implementation).
 //@unit ellipse_contract
 //@crate main
 //@needs arb probe
 
-//@attach src/primitives/ellipse/mod.rs :: impl EllipseContains { :: pub const fn contains(&self, point: Point) -> bool {
-#[kani::requires(verif_ell::small(self, point))]
-#[kani::ensures(|r: &bool| *r == verif_ell::contains_spec32(self.a as u32, self.b as u32, self.threshold as u32, point))]
-//@end
-
-//@attach src/primitives/rounded_rectangle/corner_radii.rs :: impl CornerRadii { :: fn confine(self, bounding_box: Size) -> Self {
-#[kani::requires(verif_cr::fits(&self, bounding_box))]
-#[kani::ensures(|r: &Self| *r == self)]
-//@end
 //@append src/primitives/rounded_rectangle/corner_radii.rs
 #[cfg(kani)]
 #[allow(missing_docs, trivial_casts, trivial_numeric_casts, unused_qualifications, dead_code, unused)]
@@ -29,18 +20,26 @@ pub(in crate::primitives) mod verif_cr {
             && c.top_left.height + c.bottom_left.height <= s.height
             && c.top_right.height + c.bottom_right.height <= s.height
     }
+    /// The contract of CornerRadii::confine as a function (see verif_ell::contains_by_contract).
+    pub fn confine_by_contract(c: CornerRadii, bounding_box: Size) -> CornerRadii {
+        assert!(fits(&c, bounding_box));
+        c
+    }
     impl kani::Arbitrary for CornerRadii {
         fn any() -> Self {
             Self { top_left: kani::any(), top_right: kani::any(), bottom_right: kani::any(), bottom_left: kani::any() }
         }
     }
-    /// radii that fit are left unchanged by confine()
+    /// harness-level contract of CornerRadii::confine: radii that fit are left unchanged
+    /// ({fits} confine {result == self}); callers use it through `confine_by_contract`
     //@harness prop=C05,C06,C18 kind=contract tier=quick class=P fns=src/primitives/rounded_rectangle/corner_radii.rs::CornerRadii::confine
-    #[kani::proof_for_contract(CornerRadii::confine)]
+    #[kani::proof]
     fn corner_radii_confine_fitting_contract() {
         let c: CornerRadii = kani::any();
-        let _ = c.confine(kani::any());
-        kani::cover!(true);
+        let bb: Size = kani::any();
+        kani::assume(fits(&c, bb));
+        assert!(c.confine(bb) == c);
+        kani::cover!(c.top_left.width > 0 && c.bottom_right.height > 0);
     }
 }
 //@end
@@ -61,6 +60,14 @@ pub(in crate::primitives) mod verif_ell {
         let x = (p.x * p.x) as u32;
         let y = (p.y * p.y) as u32;
         if a == b { x + y < threshold } else { b * x + a * y < threshold }
+    }
+    /// The contract of EllipseContains::contains as a function: precondition asserted at the call site,
+    /// result given by the postcondition. Used with `kani::stub` where `stub_verified` (same meaning, but
+    /// instrumented by goto-instrument --dfcc, which takes 5-10 minutes per harness on this crate) is too
+    /// slow; `ell_contains_contract` proves the real function against exactly these two functions.
+    pub fn contains_by_contract(e: &EllipseContains, p: Point) -> bool {
+        assert!(small(e, p));
+        contains_spec32(e.a as u32, e.b as u32, e.threshold as u32, p)
     }
     pub fn threshold_spec(w: u32, h: u32) -> u64 {
         if w == h {
@@ -86,12 +93,17 @@ pub(in crate::primitives) mod verif_ell {
         assert!(r.a == (s.width * s.width) as u64 && r.b == (s.height * s.height) as u64 && r.threshold == threshold_spec(s.width, s.height));
         kani::cover!(s.width != s.height);
     }
+    /// harness-level contract of EllipseContains::contains over ARBITRARY field values in the `small`
+    /// domain: {small} contains {result == contains_spec32}; callers use it through `contains_by_contract`
     //@harness prop=C05,C06,C18 kind=contract tier=quick class=P fns=src/primitives/ellipse/mod.rs::EllipseContains::contains
-    #[kani::proof_for_contract(EllipseContains::contains)]
+    #[kani::proof]
     fn ell_contains_contract() {
         let e: EllipseContains = kani::any();
-        let _ = e.contains(kani::any());
-        kani::cover!(true);
+        let p: Point = kani::any();
+        kani::assume(small(&e, p));
+        assert!(e.contains(p) == contains_spec32(e.a as u32, e.b as u32, e.threshold as u32, p));
+        kani::cover!(e.a != e.b && e.contains(p));
+        kani::cover!(e.a == e.b && !e.contains(p));
     }
 }
 //@end
